@@ -38,7 +38,7 @@ def obligations(tier):
                      encodes=["xstream_context_thread_func", "ABTD_xstream_context_join", "ABTD_xstream_context_revive", "ABTD_xstream_context_free"],
                      bounds="create + <=1 revive + free; <=3 steps of the other party per sleep; <=3 spurious wake-ups per wait loop (cut by assumption)", symbolic="when the other party acts, spurious wake-ups, whether the stream is revived"))
     import importlib
-    c01 = importlib.import_module("C01")
+    c01 = importlib.import_module("props.C01")
     o += [x for x in c01.own_obligations(tier) if x.name == "main_sched_func_replace"]
     return o
 
